@@ -1061,7 +1061,7 @@ def b8_check(case):
             finally:
                 built.dispose()
     return viols, {"nontrivial": deny in ("file", "command"),       # the string is named under exactly one of the kinds asked
-                   "outcome": "B8:%s:%s:%s" % (case["file_factory"], case["cmd_factory"], ">".join(outs))}
+                   "outcome": "B8:%s:%s" % (deny, ">".join(outs))}
 
 
 B9_STRINGS = ["/bin/echo", "/bin/echo a", "/bin/ech", "/g/a"]
